@@ -71,10 +71,10 @@ var hashHeavy = []string{
 var c03errorSites = []string{
 	"es_r = dict(srcs=[], deps=[], name=1, **{\"deps\": 1, \"name\": 3, \"srcs\": 2})\n",
 	"es_d = {}\nes_d.update(zeta=1, alpha=2, mid=3, **{\"mid\": 0, \"alpha\": 1, \"zeta\": 2})\n",
-	"def es_f(a, b, c, *, k1, k2):\n    return a\nes_r = es_f()\n",
-	"def es_f(a, b=2):\n    return a\nes_r = es_f(1, **{\"zz\": 1, \"yy\": 2, \"xx\": 3, \"a-long-keyword-name-over-12\": 4})\n",
-	"def es_f(a, b, c):\n    return a\nes_r = es_f(1, 2, 3, **{\"c\": 1, \"b\": 2, \"a\": 3})\n",
-	"def es_f(*, k_one, k_two, k_three):\n    return 1\nes_r = es_f(**{\"k_four\": 4, \"k_five\": 5})\n",
+	"def es_f(a, b, c, *, k1, k2):\n    t = [a]\n    for q in range(3):\n        t.append(q * 2)\n    u = {\"k\": t}\n    if len(t) > 2:\n        u[\"n\"] = len(t)\n    return (a, t, u)\nes_r = es_f()\n",
+	"def es_f(a, b=2):\n    t = [a]\n    for q in range(3):\n        t.append(q * 2)\n    u = {\"k\": t}\n    if len(t) > 2:\n        u[\"n\"] = len(t)\n    return (a, t, u)\nes_r = es_f(1, **{\"zz\": 1, \"yy\": 2, \"xx\": 3, \"a-long-keyword-name-over-12\": 4})\n",
+	"def es_f(a, b, c):\n    t = [a]\n    for q in range(3):\n        t.append(q * 2)\n    u = {\"k\": t}\n    if len(t) > 2:\n        u[\"n\"] = len(t)\n    return (a, t, u)\nes_r = es_f(1, 2, 3, **{\"c\": 1, \"b\": 2, \"a\": 3})\n",
+	"def es_f(*, k_one, k_two, k_three):\n    a = 1\n    t = [a]\n    for q in range(3):\n        t.append(q * 2)\n    u = {\"k\": t}\n    if len(t) > 2:\n        u[\"n\"] = len(t)\n    return (a, t, u)\nes_r = es_f(**{\"k_four\": 4, \"k_five\": 5})\n",
 	"es_r = struct(alpha=1, beta=2, gamma=3, **{\"gamma\": 0, \"beta\": 1, \"alpha\": 2})\n",
 	"es_r = \"%(first)s %(second)s %(third)s\" % {\"other-key-a-long-one\": 1, \"zz\": 2}\n",
 	"es_r = \"{first} {second} {third}\".format(**{\"fourth-key-a-long-one\": 1, \"zz\": 2})\n",
@@ -87,10 +87,13 @@ var c03errorSites = []string{
 	"es_r = dict([(\"a\", 1), (\"b-long-string-over-12-bytes\", 2), ([], 3), ({}, 4)])\n",
 	"es_r = fail(\"stop:\", {\"a-long-string-over-12-bytes\": 1, \"b\": [2]}, struct(z=1, a=2), [dir, len])\n",
 	"es_r = min({\"a-long-string-over-12-bytes\": 1, 2: 3, None: 4})\n",
-	"def es_f(x, y):\n    return x\nes_r = [es_f(*q) for q in [(1, 2), {\"a-long-string-over-12-bytes\": 1, \"b\": 2, \"c\": 3}]]\n",
+	"def es_f(x, y):\n    a = x\n    t = [a]\n    for q in range(3):\n        t.append(q * 2)\n    u = {\"k\": t}\n    if len(t) > 2:\n        u[\"n\"] = len(t)\n    return (a, t, u)\nes_r = [es_f(*q) for q in [(1, 2), {\"a-long-string-over-12-bytes\": 1, \"b\": 2, \"c\": 3}]]\n",
 	"es_a, es_b = {\"a-long-string-over-12-bytes\": 1, \"b\": 2, \"c\": 3}\n",
 	"es_r = json.decode('{\"a-long-string-over-12-bytes\": 1, \"b\": 2, \"a-long-string-over-12-bytes\": 3, \"b\": }')\n",
 	"es_r = time.time(yeer=1, munth=2, dai=3)\n",
+	"def es_g(a, b):\n    w = [a, b]\n    for q in range(4):\n        w.append(q)\n    return w\ndef es_h(n):\n    v = es_g(n, n + 1)\n    v2 = es_g(*v[:2])\n    return es_g(n)\nes_r = [es_h(1)]\n",
+	"def es_g(a, b=1, *, c):\n    w = [a, b]\n    for q in range(4):\n        w.append(q)\n    return w\nes_ok = es_g(1, c=2)\nes_r = sorted([3, 1, 2], key=es_g)\n",
+	"es_l = lambda a, b: (\n    a +\n    b +\n    1)\nes_ok = es_l(1, 2)\nes_r = es_l(1)\n",
 	"es_r = math.pow(**{\"y\": 1, \"x\": 2, \"zz\": 3, \"ww\": 4})\n",
 }
 
